@@ -71,7 +71,7 @@ def generate(rng, tier):
             if not ok:
                 continue
         c = dict(kind=('one:' if one else '') + method + ':' + nan_kind, method=method, one=one, P=P, conds=conds, rows8=rows,
-                 nan=nan, nan_kind=nan_kind, folds=folds, noise=noise, weighting=rng.choice(['number', 'equal']),
+                 nan=nan, nan_kind=nan_kind, folds=folds, noise=noise, weighting=rng.choice(['number', 'equal']), as_list=rng.random() < 0.3,
                  pl=rng.choice([1, 2]), pw=rng.choice([0.1, 0.25]), intdtype=intd, order=rng.choice(['C', 'F']),
                  labtype=rng.choice(['int', 'str']), foldtype=rng.choice(['int', 'half', 'str']))
         if one:
@@ -119,7 +119,8 @@ def run(c):
         obs['fold'] = [(f * 2 + 1) if ft == 'int' else (1.0 + 0.5 * f) if ft == 'half' else f'run{f}' for f in c['folds']]
     ds = rsatoolbox.data.Dataset(X, obs_descriptors=obs)
     before = np.array(ds.measurements, copy=True)
-    r = calc_rdm_unbalanced(ds, method=c['method'], descriptor='cond', noise=noise,
+    # a list with one dataset must give the RDM of that dataset (every option passed on to the per-dataset call)
+    r = calc_rdm_unbalanced([ds] if c.get('as_list') else ds, method=c['method'], descriptor='cond', noise=noise,
                             cv_descriptor='fold' if c['folds'] is not None else None,
                             prior_lambda=c['pl'], prior_weight=c['pw'], weighting=c['weighting'])
     if not np.array_equal(before, ds.measurements, equal_nan=True):
